@@ -84,11 +84,16 @@ func kvRoles(p *eng.Prog) map[string]string {
 				continue
 			}
 			if st, ok := a.In.(*ssa.Store); ok {
-				if _, isP := eng.Origin(st.Val).(*ssa.Parameter); isP {
+				if aeadFromCaller(st.Val, 0) {
 					fromParam[a.Field.Name] = true
 				}
 			}
 		}
+	}
+	if len(aeads) == 1 && !fromParam[aeads[0]] {
+		// only the data key's primitive is kept (the caller's key is used at
+		// open/create and dropped)
+		roles["dekCipher"] = aeads[0]
 	}
 	if len(aeads) == 2 {
 		switch {
@@ -373,4 +378,42 @@ func storeField(role string) string {
 		return by(func(t types.Type) bool { return eng.IsNamed(t, setecPkg, "StoreClient") })
 	}
 	return role
+}
+
+// aeadFromCaller: v is the caller's key handed down unchanged: a parameter
+// of the function, and -- when that function is an unexported constructor
+// helper -- at every call site of it again such a value (a primitive built
+// with aead.New and passed to the helper is not).
+func aeadFromCaller(v ssa.Value, depth int) bool {
+	prm, isP := eng.Origin(v).(*ssa.Parameter)
+	if !isP || depth > 3 {
+		return false
+	}
+	f := prm.Parent()
+	if obj := f.Object(); obj == nil || obj.Exported() || f.Parent() != nil {
+		return true
+	}
+	sites := eng.StaticCallSites(f)
+	if len(sites) == 0 {
+		return true
+	}
+	idx := -1
+	for i, q := range f.Params {
+		if q == prm {
+			idx = i
+		}
+	}
+	for _, cs := range sites {
+		args := cs.Common().Args
+		if idx < 0 || idx >= len(args) || len(args) != len(f.Params) {
+			return false
+		}
+		if _, stillP := eng.Origin(args[idx]).(*ssa.Parameter); !stillP {
+			return false
+		}
+		if !aeadFromCaller(args[idx], depth+1) {
+			return false
+		}
+	}
+	return true
 }
